@@ -923,6 +923,23 @@ def registry_walk_spec(rep, rule, func, helper, storage, direction, first_hit,
                     problems.append('after a None result returns `%s`' % ret[:40])
                 if isnone is None and ret != last:
                     problems.append('helper result not tested / returned')
+                if isnone is None and ret == last:
+                    # inside the walk an untested result is overwritten by the next
+                    # registry that applies: the earliest registry no longer wins
+                    problems.append('the result of %s is never tested against None: the '
+                                    'walk goes on and a later registry overwrites a hit'
+                                    % helper)
+                if isnone is True:
+                    # a miss must be able to go on to the next registry
+                    ks = [k_ for k_, (c_, t_, p_) in enumerate(ps.order)
+                          if t_ is True and c_.endswith(' is None')]
+                    try:
+                        from ..cfg import cfg_of as _cfg_of
+                        if ks and not ps.reenters_loop(_cfg_of(func), ks[-1]):
+                            problems.append('after a None result the walk cannot reach the '
+                                            'next registry (the loop is left unconditionally)')
+                    except Exception:
+                        pass
             elif ret != 'None':
                 problems.append('no registry applied but returns `%s`' % ret[:40])
         else:
